@@ -8,13 +8,19 @@ Line protocol for K_C15 (users 0 and 1; every line except `reset` first moves th
   `send <u> ok|fail <m>`               the pending `send_server_messages` of u's worker returns / raises
   `resp <u> exists|notexists|error <m>` the pending `wait_for_server_message` returns / raises (not a timeout)
   `adv <seconds>`                      virtual time passes: due retry timers and response timeouts fire in order
-  `close`                              server connection CLOSED
+  `close`                              server connection CLOSED (tracking dropped, session destroyed)
+  `login`                              SessionInitializedEvent: own name and friends list tracked with FRIEND
+  `cycle <m>`                          one `TransferManager.manage_user_tracking`
+  `friend <u> 0|1`                     name removed from / added to `settings.users.friends` (and noticed)
+  `tadd <u> <m>`                       a transfer for u is added (ids 0, 1, 2, … in creation order)
+  `tfin <id> <m>` `tque <id> <m>`      transfer finalized (abort) / queued again
+  `trm <id> <m>`                       `TransferManager.remove`
 
 `<m>` = `.` workers run until they park again | `!` the same (the implementation only yields once — this is
 where the finished-not-yet-reaped window is hit; the fixed code, hence the model, does not distinguish) |
 `+` workers do not run (the next op is issued back-to-back).
 Output: `[refused ]<user 0> | <user 1>` with `f=<flags> s=<U|T|P> g=<-|A|W|R> a=<attempts> e=<events>`;
-`refused` = no such call is pending; `bad-op`, `bad-user`, `bad-flag` for what the harness never sends.
+`refused` = no such call is pending / no such transfer (in that state); `bad-op`, `bad-user`, `bad-flag` for what the harness never sends.
 -/
 open AioslskVerif.Track AioslskVerif.Generated.Track
 
@@ -70,59 +76,87 @@ partial def advTo (s : State) (target : Nat) : State :=
     let s := step s (if t.2.2 then .retryFires t.2.1 else .workerStep t.2.1 .timeout)
     advTo s target
 
-def finish (s : State) (m : String) (pre : String := "") : State × String :=
-  let s := if m == "+" then s else settle s
-  (s, pre ++ obs s)
+def finish (w : World) (m : String) (pre : String := "") : World × String :=
+  let w := if m == "+" then w else { w with t := settle w.t }
+  (w, pre ++ obs w.t)
 
-def handle (s0 : State) (line : String) : State × String :=
-  let s := step s0 (.advance 1)
+def okMod (m : String) : Bool := m == "." || m == "+" || m == "!"
+
+def handle (w0 : World) (line : String) : World × String :=
+  let w : World := { w0 with t := step w0.t (.advance 1) }
+  let s := w.t
   match (line.splitOn " ").filter (· ≠ "") with
-  | ["reset"] => (State.init, "ok")
+  | ["reset"] => (World.init, "ok")
   | [c, u, f, m] =>
-    if m ≠ "." ∧ m ≠ "+" ∧ m ≠ "!" then (s0, "bad-op") else
+    if !okMod m then (w0, "bad-op") else
     match u.toNat? with
-    | none => (s0, "bad-op")
+    | none => (w0, "bad-op")
     | some u =>
-      if u > 1 then (s0, "bad-user") else
+      if u > 1 then (w0, "bad-user") else
       if c == "track" || c == "untrack" then
         match f.toNat? with
-        | none => (s0, "bad-op")
+        | none => (w0, "bad-op")
         | some n =>
           match decodeFlags n with
-          | none => (s0, "bad-flag")
-          | some fl => finish (step s (if c == "track" then .track u fl else .untrack u fl)) m
+          | none => (w0, "bad-flag")
+          | some fl => finish (wstep w (.base (if c == "track" then .track u fl else .untrack u fl))) m
       else if c == "send" then
         let env? : Option Env := if f == "ok" then some .sendOk else if f == "fail" then some .sendFail else none
         match env?, (s.users u).entry with
-        | none, _ => (s0, "bad-op")
+        | none, _ => (w0, "bad-op")
         | some env, some e =>
-          if e.pc == .sendAdd || e.pc == .sendRemove then finish (step s (.workerStep u env)) m
-          else finish s m "refused "
-        | some _, none => finish s m "refused "
+          if e.pc == .sendAdd || e.pc == .sendRemove then finish (wstep w (.base (.workerStep u env))) m
+          else finish w m "refused "
+        | some _, none => finish w m "refused "
       else if c == "resp" then
         let env? : Option Env := if f == "exists" then some .exists else if f == "notexists" then some .notExists
           else if f == "error" then some .error else none
         match env?, (s.users u).entry with
-        | none, _ => (s0, "bad-op")
+        | none, _ => (w0, "bad-op")
         | some env, some e =>
           (match e.pc with
-           | .waitResp _ => finish (step s (.workerStep u env)) m
-           | _ => finish s m "refused ")
-        | some _, none => finish s m "refused "
-      else (s0, "bad-op")
+           | .waitResp _ => finish (wstep w (.base (.workerStep u env))) m
+           | _ => finish w m "refused ")
+        | some _, none => finish w m "refused "
+      else (w0, "bad-op")
   | ["adv", d] =>
     match d.toNat? with
-    | some d => finish (advTo s (s.now + d * tps)) "."
-    | none => (s0, "bad-op")
-  | ["close"] => finish (step s .serverClosed) "."
-  | _ => (s0, "bad-op")
+    | some d => finish { w with t := advTo s (s.now + d * tps) } "."
+    | none => (w0, "bad-op")
+  | ["close"] => finish (wstep w (.base .serverClosed)) "."
+  -- the owners of the reasons (session layer)
+  | ["login"] => finish (wstep w .login) "."
+  | ["cycle", m] => if !okMod m then (w0, "bad-op") else finish (wstep w .cycle) m
+  | ["friend", u, b] =>
+    match u.toNat?, b with
+    | some u, "1" => if u > 1 then (w0, "bad-user") else finish (wstep w (.friend u true)) "."
+    | some u, "0" => if u > 1 then (w0, "bad-user") else finish (wstep w (.friend u false)) "."
+    | _, _ => (w0, "bad-op")
+  | ["tadd", u, m] =>
+    if !okMod m then (w0, "bad-op") else
+    match u.toNat? with
+    | some u => if u > 1 then (w0, "bad-user") else finish (wstep w (.tadd u)) m
+    | none => (w0, "bad-op")
+  | [c, id, m] =>
+    if !okMod m then (w0, "bad-op") else
+    match id.toNat? with
+    | none => (w0, "bad-op")
+    | some id =>
+      match w.xfers.find? (fun x => x.id = id) with
+      | none => if c == "tfin" || c == "tque" || c == "trm" then finish w m "refused " else (w0, "bad-op")
+      | some x =>
+        if c == "tfin" then (if x.finished then finish w m "refused " else finish (wstep w (.tfin id)) m)
+        else if c == "tque" then (if x.finished then finish (wstep w (.tque id)) m else finish w m "refused ")
+        else if c == "trm" then finish (wstep w (.trm id)) m
+        else (w0, "bad-op")
+  | _ => (w0, "bad-op")
 
-partial def loop (h : IO.FS.Stream) (s : State) : IO Unit := do
+partial def loop (h : IO.FS.Stream) (w : World) : IO Unit := do
   let line ← h.getLine
   if line.isEmpty then return ()
-  let (s', out) := handle s line.trimAscii.toString
+  let (w', out) := handle w line.trimAscii.toString
   IO.println out
-  loop h s'
+  loop h w'
 
 def main : IO Unit := do
-  loop (← IO.getStdin) State.init
+  loop (← IO.getStdin) World.init
